@@ -84,7 +84,13 @@ type siteObs struct {
 	blocks   map[int]bool
 }
 
+type history struct {
+	name    string
+	prelude func()
+}
+
 type dynResult struct {
+	historyRuns, coldCompared int
 	bound, blocks, txs     int
 	totalSites, totalExec  int
 	okTx, failTx           int
@@ -129,7 +135,10 @@ func alts(sz int32) []uint16 {
 
 // explore runs f under the baseline order twice and under every deviation; report(desc, choices, base, got) on a difference.
 // It returns the reference trace positions. pairCap bounds the number of sites taking part in 2-deviations.
-func explore(r *ev.Run, d *dynResult, block int, bound, pairCap int, exec func(), result func() string, report func(kind, desc string, at where, choices []uint16, base, got string)) (iterations, nsites int, capped bool) {
+// hist = process-history variants: each prelude is run (its result discarded), then the block is executed once more under the
+// baseline order and must give the baseline result. onBaseline is called right after the reference execution.
+func explore(r *ev.Run, d *dynResult, block int, bound, pairCap int, exec func(), result func() string, report func(kind, desc string, at where, choices []uint16, base, got string),
+	onBaseline func(digest string), hist []history) (iterations, nsites int, capped bool) {
 	pcs := make([]uintptr, pcDepth*4096)
 	run := func(choices []uint16, record bool) (string, maporder.Trace) {
 		tr := maporder.Run(choices, 0, func() {
@@ -142,10 +151,23 @@ func explore(r *ev.Run, d *dynResult, block int, bound, pairCap int, exec func()
 		r.Eval()
 		return result(), tr // digest computed outside the armed region (its own map walks are not the code under test)
 	}
-	d0, _ := run(nil, false) // warm-up: fills process-global caches (reflect type caches ...), also the plain-repeat check
+	// history (a'): first execution of this block in this process (earlier blocks were executed, discarded and committed);
+	// history (b): again, after its own discarded execution. (The really cold reference comes from the child process.)
+	d0, _ := run(nil, false)
 	d1, tr := run(nil, true)
+	if onBaseline != nil {
+		onBaseline(d1)
+	}
 	if d0 != d1 {
-		report("plain-repeat", "two executions under the same order", where{}, nil, d0, d1)
+		report("process-history", "first execution in the process vs. the execution after its own discarded execution", where{}, nil, d0, d1)
+	}
+	for _, h := range hist {
+		maporder.Run(nil, 0, h.prelude)
+		got, _ := run(nil, false)
+		d.historyRuns++
+		if got != d1 {
+			report("process-history", h.name, where{}, nil, d1, got)
+		}
 	}
 	if tr.Iterations > len(tr.Sizes) {
 		bail(r, "block %d: %d map iterations exceed the trace buffer", block, tr.Iterations)
@@ -222,6 +244,11 @@ func dynamicPart(r *ev.Run) *dynResult {
 	c := &corpus{vals: vals, rip: newRippleEnv(), btc: newBtcEnv(), msc: newMscEnv()}
 	anyCapped := false
 	t0 := time.Now()
+	cold := startColdChild(r)
+	var baselines, blockNames []string
+	var blockKeys []string
+	var prevTxs []*types.Transaction
+	defer func() { cold.kill() }()
 	for bi, st := range c.steps() {
 		items := st.build()
 		var txs []*types.Transaction
@@ -236,19 +263,46 @@ func dynamicPart(r *ev.Run) *dynResult {
 			d.methods[m]++
 		}
 		blk := ch.NextBlock(txs, nil)
-		var xres store.ExecuteResult
+		cold.send(blk) // the child executes it exactly once in a fresh process, concurrently
+		bkey := blockKey(st.name, names)
+		var xres, baseRes store.ExecuteResult
 		var xerr error
+		var hist []history
+		if !st.expensive || r.Thorough() {
+			txs, prev := txs, prevTxs
+			hist = []history{
+				{"after a pre-execution (LedgerStoreImp.PreExecuteContract) of each of its transactions", func() {
+					for _, t := range txs {
+						ev.Guard(func() { ch.L.PreExecuteContract(t) })
+					}
+				}},
+				{"after a discarded execution of a different block on the same state (previous corpus block's transactions, then this block's in reverse order)", func() {
+					alt := append([]*types.Transaction{}, prev...)
+					for i := len(txs) - 1; i >= 0; i-- {
+						alt = append(alt, txs[i])
+					}
+					ev.Guard(func() { ch.L.ExecuteBlock(ch.NextBlock(alt, nil)) })
+				}},
+			}
+		}
 		iters, nsites, capped := explore(r, d, bi, d.bound, pairCap, func() { xres, xerr = ch.L.ExecuteBlock(blk) }, func() string { return digestOf(xres, xerr) }, func(kind, desc string, at where, choices []uint16, base, got string) {
+			if kind == "process-history" {
+				at = where{fn: bkey}
+			}
 			r.Violation(violKey(kind, at, diffField(base, got, names)), map[string]any{"block": bi, "block_name": st.name,
 				"deviation": desc, "iteration_site": at.key(), "iteration_func": at.fn, "choices": choices, "baseline": clip(base), "deviated": clip(got), "txs": names, "differs_in": diffField(base, got, names)})
-		})
+		}, func(dg string) { baseRes = xres; baselines = append(baselines, dg) }, hist)
+		blockNames, blockKeys, prevTxs = append(blockNames, st.name), append(blockKeys, bkey), txs
 		anyCapped = anyCapped || capped
 		r.Case(fmt.Sprintf("block%d sites=%d", bi, nsites))
 		r.Class("block_deterministic")
-		// commit under the baseline order too: the chain the later blocks build on must not depend on this process' random seed
-		var res store.ExecuteResult
-		var err error
-		maporder.Run(nil, 0, func() { res, err = ch.Commit(blk) })
+		// commit the result of the reference execution (baseline order): the chain the later blocks build on does not depend on
+		// this process' random seed, and expensive blocks are not executed once more
+		res := baseRes
+		if xerr != nil && res.WriteSet == nil {
+			bail(r, "execute block %d (%s): %v", bi, st.name, xerr)
+		}
+		err := ch.L.SubmitBlock(blk, res)
 		if err != nil {
 			bail(r, "commit block %d (%s): %v", bi, st.name, err)
 		}
@@ -284,6 +338,33 @@ func dynamicPart(r *ev.Run) *dynResult {
 		d.blocks++
 		d.txs += len(items)
 	}
+	// the cold reference: a fresh process that executed every block exactly once
+	coldDigests, cerr := cold.finish()
+	if cerr != nil && r.NViolations() == 0 {
+		bail(r, "cold child: %v", cerr)
+	}
+	for i, dg := range coldDigests {
+		if i >= len(baselines) {
+			break
+		}
+		d.coldCompared++
+		r.Eval()
+		if dg != baselines[i] {
+			f := diffField(baselines[i], dg, nil)
+			r.Violation(violKey("process-history", where{fn: blockKeys[i]}, f), map[string]any{"block": i, "block_name": blockNames[i],
+				"deviation": "fresh process that executes every corpus block exactly once (cold) vs. this process after discarded executions", "baseline": clip(baselines[i]), "deviated": clip(dg), "differs_in": f})
+			break // the two chains have diverged: every later state root differs as a consequence
+		}
+	}
+	if cerr == nil && r.NViolations() == 0 && d.coldCompared != len(baselines) {
+		bail(r, "cold child answered for %d of %d blocks", d.coldCompared, len(baselines))
+	}
+	r.Note("process_history_variants", []string{"fresh process, every block executed exactly once (child process, all blocks)",
+		"first execution of the block in the exploring process", "after its own discarded execution",
+		"after a pre-execution of each of its transactions", "after a discarded execution of a different block on the same state",
+		"(expensive blocks, quick tier: the last two are skipped)"})
+	r.Note("process_history_executions", d.historyRuns+2*d.blocks)
+	r.Note("cold_child_blocks_compared", d.coldCompared)
 	if anyCapped {
 		r.Capped(fmt.Sprintf("2-deviations restricted to the first %d iteration sites of a block", pairCap))
 	}
@@ -297,7 +378,7 @@ func dynamicPart(r *ev.Run) *dynResult {
 		})
 	}, func() string { return fmt.Sprintf("%x", enc) }, func(kind, desc string, at where, choices []uint16, base, got string) {
 		r.Violation("nondeterministic:encoder:RegisterAssetParam.Serialization", map[string]any{"deviation": desc, "choices": choices, "baseline": base, "deviated": got})
-	})
+	}, nil, nil)
 	d.codecChecks++
 	r.Note("corpus", d.perBlock)
 	r.Note("corpus_blocks", d.blocks)
@@ -308,6 +389,25 @@ func dynamicPart(r *ev.Run) *dynResult {
 		bail(r, "corpus degenerate: %d successful / %d failed transactions", d.okTx, d.failTx)
 	}
 	return d
+}
+
+// blockKey identifies a corpus block in process-history violation keys: its distinct contract methods (<= 3), else its name.
+func blockKey(name string, txNames []string) string {
+	var ms []string
+	seen := map[string]bool{}
+	for _, n := range txNames {
+		if k := strings.IndexByte(n, '/'); k >= 0 {
+			n = n[:k]
+		}
+		if !seen[n] {
+			seen[n] = true
+			ms = append(ms, n)
+		}
+	}
+	if len(ms) > 3 {
+		return "block(" + name + ")"
+	}
+	return strings.Join(ms, "+")
 }
 
 // violKey: stable and specific = kind, the function whose map iteration was deviated, the result component that differs.
